@@ -101,3 +101,61 @@ func (v *concSigVariant) Gen(r *rand.Rand, idx int, emit func(string)) {
 }
 
 func init() { components["conc-sigs"] = func() Component { return &concSigVariant{} } }
+
+// nodeRace: a host re-registers (SetNode with a new address) while its own keep-alive (UpdateNodePeers, with a long
+// peer list so that it takes a while) is being processed.  Both are acknowledged; in either serial order the record
+// ends up carrying the new address - a keep-alive only refreshes LastSeen and the block number.
+func (c *concComp) nodeRace(rounds, npeers int) ([]string, string, bool) {
+	s := openStore(c.driver)
+	defer s.Close()
+	peers := make([]string, npeers)
+	for i := range peers {
+		peers[i] = fmt.Sprintf("ghost%04d", i)
+	}
+	stale, failed := 0, 0
+	first := ""
+	for r := 0; r < rounds; r++ {
+		id := store.NodeID(fmt.Sprintf("racer%d", r))
+		old := fmt.Sprintf("enode://%s@203.0.113.7:30303", id)
+		neu := fmt.Sprintf("enode://%s@198.51.100.%d:30303", id, 1+r%200)
+		if err := s.SetNode(store.Node{ID: id, URI: old, IsHost: true, Kind: "geth", LastSeen: time.Now()}); err != nil {
+			failed++
+			continue
+		}
+		var wg sync.WaitGroup
+		var e1, e2 error
+		wg.Add(2)
+		go func() { defer wg.Done(); _, e1 = s.UpdateNodePeers(id, peers, 7) }()
+		go func() {
+			defer wg.Done()
+			time.Sleep(time.Duration(r%5) * 200 * time.Microsecond)
+			e2 = s.SetNode(store.Node{ID: id, URI: neu, IsHost: true, Kind: "parity", LastSeen: time.Now()})
+		}()
+		wg.Wait()
+		if e1 != nil || e2 != nil {
+			failed++
+			continue
+		}
+		n, err := s.GetNode(id)
+		if err != nil || n.URI != neu || n.Kind != "parity" {
+			stale++
+			if first == "" && n != nil {
+				first = fmt.Sprintf("round-%d-stored-%s-%s", r, strings.Replace(n.URI[strings.Index(n.URI, "@")+1:], " ", "_", -1), n.Kind)
+			}
+		}
+	}
+	out := fmt.Sprintf("ok rounds-with-stale-record=%d failed=%d", stale, failed)
+	if first != "" {
+		out += " first=" + first
+	}
+	return nil, out, true
+}
+
+type concNodeRaceVariant struct{ concComp }
+
+func (v *concNodeRaceVariant) Prefix() string { return "conc" }
+func (v *concNodeRaceVariant) Gen(r *rand.Rand, idx int, emit func(string)) {
+	emit(fmt.Sprintf("noderace rounds=%d peers=%d", 60+r.Intn(60), []int{200, 800, 2000}[r.Intn(3)]))
+}
+
+func init() { components["conc-noderace"] = func() Component { return &concNodeRaceVariant{} } }
